@@ -22,6 +22,12 @@ from urwid.widget import text as _text
 from urwid.widget.constants import Sizing
 
 TX = "urwid/widget/text.py:"
+# contracts/C03_text.py owns the plain registry keys of the Text methods (it loads later): the C01 contracts of the same
+# methods are registered under this alias so that BOTH files' clauses are verified against the real bodies
+NS = "natural-size"
+# ... and, within this file, the Text methods a body calls on `self` are described by THIS file's contracts (or inlined:
+# None), not by C03_text's primary ones, whose opaque sorts are different
+_UCT = {TX + "Text._update_cache_translation": None}
 
 TEXTSTR = Opaque("TextStr")
 ATTRRUNS = Opaque("AttrRuns")
@@ -110,7 +116,7 @@ def _ta_ok(s, ta):
     return both(eq(t[0], s._text), eq(t[1], s._attrib))
 
 
-@contract(TX + "Text.get_line_translation", property="C01", inline=TINL, replayable=False)
+@contract(TX + "Text.get_line_translation", property="C01", alias=NS, inline=TINL, replayable=False, contract_overrides=_UCT)
 class text_glt:
     self_shape = TEXT
     params = dict(maxcol=Int, ta=Opt(Tup(TEXTSTR, ATTRRUNS)))
@@ -130,7 +136,7 @@ class text_glt:
         yield "cache-coherent", text_inv(s)  # (the class invariant, for the callers)
 
 
-@contract(TX + "Text.rows", property="C01", inline=TINL, replayable=False)
+@contract(TX + "Text.rows", property="C01", alias=NS, inline=TINL, replayable=False, contract_overrides=dict(_UCT, **{TX + "Text.get_line_translation": text_glt}))
 class text_rows:
     self_shape = TEXT
     params = dict(size=Tup(Int), focus=Bool)
@@ -232,7 +238,8 @@ class get_encoding_c:
     result = Opaque("Encoding")
 
 
-_TOV = {"urwid/str_util.py:calc_width": calc_width_opaque, "urwid/util.py:get_encoding": get_encoding_c, "urwid/canvas.py:apply_text_layout": apply_text_layout_c}
+_TOV = {TX + "Text._update_cache_translation": None, TX + "Text.get_line_translation": text_glt, TX + "Text.rows": text_rows,
+        "urwid/str_util.py:calc_width": calc_width_opaque, "urwid/util.py:get_encoding": get_encoding_c, "urwid/canvas.py:apply_text_layout": apply_text_layout_c}
 SIZE_FF = Union(Tup(Int), Tup(), Const(None))
 
 
@@ -249,7 +256,7 @@ def _no_size(size):
     return size is None or (isinstance(size, tuple) and len(size) == 0)
 
 
-@contract(TX + "Text.pack", property="C01", inline=TINL, replayable=False, contract_overrides=_TOV)
+@contract(TX + "Text.pack", property=("C01", "C03"), alias=NS, inline=TINL, replayable=False, contract_overrides=_TOV)
 class text_pack:
     self_shape = TEXT_P
     params = dict(size=SIZE_FF, focus=Bool)
@@ -319,7 +326,7 @@ def _pack_effects(old, s, a, result):
 text_pack.effects = staticmethod(_pack_effects)
 
 
-@contract(TX + "Text.render", property="C01", inline=TINL, replayable=False, contract_overrides=_TOV)
+@contract(TX + "Text.render", property=("C01", "C03"), alias=NS, inline=TINL, replayable=False, contract_overrides=dict(_TOV, **{TX + "Text.pack": text_pack}))
 class text_render:
     """Flow: `maxcol` columns and exactly the rows `rows((maxcol,))` reports (both are the number of lines the layout
     answers at that width -- Text.rows proves the same expression).  Fixed: the columns `pack()` reports and the number
@@ -393,7 +400,7 @@ class text_invalidate:
 INV_INL = (TX + "Text._invalidate",)
 
 
-@contract(TX + "Text.set_text", property="C01", replayable=False, inline=INV_INL, contract_overrides={"urwid/util.py:decompose_tagmarkup": decompose_opaque})
+@contract(TX + "Text.set_text", property="C01", alias=NS, replayable=False, inline=INV_INL, contract_overrides={TX + "Text._invalidate": None, "urwid/util.py:decompose_tagmarkup": decompose_opaque})
 class text_set_text:
     self_shape = TEXT_P
     params = dict(markup=Opaque("Markup"))
@@ -413,7 +420,7 @@ class text_set_text:
 
 
 def _set_mode(method, field, query, other):
-    @contract(TX + "Text." + method, property="C01", inline=(TX + "Text.layout",) + INV_INL, replayable=False)
+    @contract(TX + "Text." + method, property="C01", alias=NS, inline=(TX + "Text.layout",) + INV_INL, replayable=False, contract_overrides={TX + "Text._invalidate": None})
     class _m:
         self_shape = TEXT_P
         params = dict(mode=MODE)
@@ -444,9 +451,10 @@ def _set_mode(method, field, query, other):
 
 text_set_align = _set_mode("set_align_mode", "_align_mode", "supports_align_mode", "_wrap_mode")
 text_set_wrap = _set_mode("set_wrap_mode", "_wrap_mode", "supports_wrap_mode", "_align_mode")
+_SL_OV = {TX + "Text.set_align_mode": text_set_align, TX + "Text.set_wrap_mode": text_set_wrap, TX + "Text._invalidate": None}
 
 
-@contract(TX + "Text.set_layout", property="C01", replayable=False)
+@contract(TX + "Text.set_layout", property="C01", alias=NS, replayable=False, contract_overrides=_SL_OV)
 class text_set_layout:
     """A layout object is given (the `None` default reads the shared module-level StandardTextLayout instance).
 
